@@ -306,7 +306,80 @@ def normalise_program(trees: dict[str, ast.Module]) -> dict[str, list[str]]:
                         for st in list(t2.body):
                             if isinstance(st, ast.ImportFrom):
                                 st.names = [a for a in st.names if a.name != name] or st.names
-    from .records import scalarise
+    # NEW literal module constants that another unit imports are copied to their uses there (within a unit canon does that)
+    from .canon import _literal as _lit, _clone as _cl
+
+    const_exports: dict[str, dict[str, ast.AST]] = {}
+    for rel, tree in trees.items():
+        b = base.get(rel)
+        g = set(b["__globals__"]) if b and b.get("__globals__") is not None else (set() if b is None else None)
+        if g is None:
+            continue
+        mod = rel[:-3].replace(os.sep, ".")
+        mod = mod[: -len(".__init__")] if mod.endswith(".__init__") else mod
+        binds: dict[str, list[ast.AST]] = {}
+        for st in tree.body:
+            if isinstance(st, ast.Assign) and len(st.targets) == 1 and isinstance(st.targets[0], ast.Name):
+                binds.setdefault(st.targets[0].id, []).append(st.value)
+            elif isinstance(st, ast.AnnAssign) and isinstance(st.target, ast.Name) and st.value is not None:
+                binds.setdefault(st.target.id, []).append(st.value)
+        const_exports[mod] = {k: v[0] for k, v in binds.items() if k not in g and len(v) == 1 and _lit(v[0]) and (k.startswith("_") or k.isupper())
+                              and sum(1 for n in ast.walk(tree) if isinstance(n, ast.Name) and n.id == k and isinstance(n.ctx, (ast.Store, ast.Del))) == 1}
+    for rel, tree in trees.items():
+        got: dict[str, ast.AST] = {}
+        for st in ast.walk(tree):
+            if isinstance(st, ast.ImportFrom):
+                src_mod = _abs_module(rel, st.level, st.module)
+                for a in st.names:
+                    if a.name in const_exports.get(src_mod, {}):
+                        got[a.asname or a.name] = const_exports[src_mod][a.name]
+        if got:
+            class _CS(ast.NodeTransformer):
+                def visit_Name(self, n: ast.Name) -> ast.AST:
+                    if isinstance(n.ctx, ast.Load) and n.id in got:
+                        new = _cl(got[n.id])
+                        for x in ast.walk(new):
+                            ast.copy_location(x, n)
+                        return new
+                    return n
+            for fn in [n for n in ast.walk(tree) if isinstance(n, FUNC_KINDS)]:
+                shadow = {a.arg for a in fn.args.args + fn.args.kwonlyargs} | {x.id for x in ast.walk(fn) if isinstance(x, ast.Name) and isinstance(x.ctx, ast.Store)}
+                if not (shadow & set(got)):
+                    _CS().generic_visit(fn)
+    from .records import dissolve_objects, scalarise
+
+    for rel, ns in dissolve_objects(trees, known_classes).items():
+        notes[rel] += ns
+    # generated fields `holder__attr` go back to the reference tree's field names (same owner class, a field of the reference
+    # tree that no longer exists, initialised by the same expression, names that agree in their last word)
+    for rel, tree in trees.items():
+        b = base.get(rel)
+        bf = (b or {}).get("__fields__")
+        if not bf:
+            continue
+        for c in [n for n in ast.walk(tree) if isinstance(n, ast.ClassDef)]:
+            init = next((m for m in c.body if isinstance(m, FUNC_KINDS) and m.name == "__init__"), None)
+            if init is None:
+                continue
+            now: dict[str, str] = {}
+            for st in ast.walk(init):
+                tg = st.targets if isinstance(st, ast.Assign) else [st.target] if isinstance(st, ast.AnnAssign) and st.value is not None else []
+                for t in tg:
+                    if isinstance(t, ast.Attribute) and isinstance(t.value, ast.Name) and t.value.id == "self":
+                        now.setdefault(t.attr, ast.unparse(st.value))
+            ref = {k.split(".", 1)[1]: v for k, v in bf.items() if k.startswith(c.name + ".")}
+            missing = {k: v for k, v in ref.items() if k not in now}
+            for gen in [k for k in now if "__" in k.strip("_") and k not in ref]:
+                last = gen.rsplit("__", 1)[1].strip("_")
+                cands = [k for k in missing if k.strip("_").endswith(last) or last.endswith(k.strip("_"))]
+                same_init = [k for k in cands if missing[k] == now[gen]]
+                pick = same_init if len(same_init) == 1 else cands if len(cands) == 1 else []
+                if len(pick) == 1:
+                    for n in ast.walk(tree):
+                        if isinstance(n, ast.Attribute) and n.attr == gen:
+                            n.attr = pick[0]
+                    notes[rel].append(f"{rel}:{c.name}: generated field {gen} renamed to the reference field {pick[0]}")
+                    missing.pop(pick[0])
 
     for rel, ns in scalarise(trees, known_classes, _abs_module).items():
         notes[rel] += ns
@@ -366,6 +439,15 @@ def generate(root: str) -> dict[str, T.Any]:
                     entry[key] = [[n, s] for n, s in sigs]
             entry["__functions__"] = sorted(names)
             entry["__globals__"] = module_globals
+            fields: dict[str, str] = {}
+            for c in [n for n in ast.walk(tree) if isinstance(n, ast.ClassDef)]:
+                init = next((m for m in c.body if isinstance(m, FUNC_KINDS) and m.name == "__init__"), None)
+                for st in (ast.walk(init) if init is not None else []):
+                    tg = st.targets if isinstance(st, ast.Assign) else [st.target] if isinstance(st, ast.AnnAssign) and st.value is not None else []
+                    for t in tg:
+                        if isinstance(t, ast.Attribute) and isinstance(t.value, ast.Name) and t.value.id == "self":
+                            fields.setdefault(f"{c.name}.{t.attr}", ast.unparse(st.value))
+            entry["__fields__"] = fields
             entry["__class_attrs__"] = class_attrs
             entry["__classes__"] = sorted(c.name for c in ast.walk(tree) if isinstance(c, ast.ClassDef))
             out[rel] = entry
